@@ -137,13 +137,38 @@ class PySide(object):
             self.form[1000 + 2 * i] = mgr.Or(self.form[2 * i], self.form[2 * ((i + 1) % self.NSYM)])
         for k, v in self.form.items():
             self.fid[v] = k
-        self.terms = [mgr.Symbol("t%d" % i, INT) for i in range(self.NSYM)]
+        P = self
+
+        class Forms(dict):
+            # ids >= 10000: as many further literals as a large script needs (even: symbol w<k>, odd: its negation)
+            def __missing__(d, k):
+                if k < 10000:
+                    raise KeyError(k)
+                sym = mgr.Symbol("w%d" % ((k - 10000) // 2), BOOL)
+                for kk, v in ((k - k % 2, sym), (k - k % 2 + 1, mgr.Not(sym))):
+                    dict.__setitem__(d, kk, v)
+                    P.fid[v] = kk
+                return dict.__getitem__(d, k)
+        self.form = Forms(self.form)
+
+        class Terms(list):
+            def __getitem__(l, i):
+                while isinstance(i, int) and i >= len(l):
+                    l.append(mgr.Symbol("t%d" % len(l), INT))
+                    P.termid[l[-1]] = len(l) - 1
+                return list.__getitem__(l, i)
+        self.termid = {}
+        self.terms = Terms()
+        self.terms[self.NSYM - 1]
         self.kinds = [(smtcmd.MAXIMIZE, MaximizationGoal, False), (smtcmd.MINIMIZE, MinimizationGoal, False),
                       (smtcmd.MINMAX, MinMaxGoal, True), (smtcmd.MAXMIN, MaxMinGoal, True)]
-        self.idname = {0: "", 1: "x", 2: "goal two"}
+        class Ids(dict):
+            def __missing__(d, k):
+                return "g%d" % k
+        self.idname = Ids({0: "", 1: "x", 2: "goal two"})
         self._cmd_cache = {}
         self.getobj = SmtLibCommand(smtcmd.GET_OBJECTIVES, [])
-        self.termid = {t: i for i, t in enumerate(self.terms)}
+
         self._goal_key = {}                  # (class, term, signed) -> g
         self.others = [SmtLibCommand(smtcmd.SET_LOGIC, ["QF_LIA"]), SmtLibCommand(smtcmd.GET_MODEL, []),
                        SmtLibCommand(smtcmd.DECLARE_FUN, [self.form[0]]), SmtLibCommand(smtcmd.EXIT, [])]
@@ -163,7 +188,7 @@ class PySide(object):
             name, cls, is_list = self.kinds[g % 4]
             signed = bool((g // 4) % 2)
             t = self.terms[g // 8]
-            arg = [t, self.terms[(g // 8 + 1) % self.NSYM]] if is_list else t
+            arg = [t, self.terms[g // 8 + 1]] if is_list else t
             # `:signed` present only when true half of the time it is false: both spellings are legal
             args = [arg, [(":signed", signed)]] if (signed or g % 3 == 0) else [arg]
             c = C(name, args)
@@ -198,6 +223,55 @@ class PySide(object):
             s.add_command(self.others[i % len(self.others)] if t == "x" else self.command(t))
         return s
 
+    def text_of(self, toks):
+        """The script as SMT-LIB text, written by the harness itself (not by pySMT's printer): declarations of the
+        symbols used, then one command per token.  The optional numeral of push/pop is sometimes left out for 1."""
+        decl, body = {}, []
+        def lit(i):
+            k = i - i % 2
+            name = ("w%d" % ((k - 10000) // 2)) if k >= 10000 else ("v%d" % (k // 2))
+            decl[name] = "Bool"
+            return name if i % 2 == 0 else "(not %s)" % name
+        for n, t in enumerate(toks):
+            k = t[0]
+            if k == "a":
+                body.append("(assert %s)" % lit(int(t[1:])))
+            elif k == "s":
+                i, f, w = (int(x) for x in t[1:].split("."))
+                body.append("(assert-soft %s%s%s)" % (lit(f), "" if i == 0 else " :id %s" % self.idname[i],
+                                                       "" if (w == 1 and f % 3 == 0) else " :weight %d" % w))
+            elif k == "o":
+                g = int(t[1:])
+                decl["t%d" % (g // 8)] = "Int"
+                self.command(t)                      # registers the expected goal
+                body.append("(%s t%d%s)" % ("maximize" if g % 4 == 0 else "minimize", g // 8, " :signed" if (g // 4) % 2 else ""))
+            elif k in "up":
+                num = int(t[1:])
+                body.append("(%s%s)" % ("push" if k == "u" else "pop", "" if (num == 1 and n % 2 == 0) else " %d" % num))
+            elif k == "r":
+                body.append("(reset-assertions)")
+            elif k == "c":
+                body.append("(check-sat)")
+            elif k == "x":
+                body.append("(set-option :produce-models true)")
+            elif k == "G":
+                body.append("(get-objectives)")
+            else:
+                raise ValueError(t)
+        return "".join("(declare-fun %s () %s)\n" % (nm, ty) for nm, ty in sorted(decl.items())), "\n".join(body) + "\n"
+
+    def parsed_script(self, toks):
+        """text -> SmtLibParser -> SmtLibScript, without the declarations"""
+        from io import StringIO
+        from pysmt.smtlib.parser import SmtLibParser
+        decl, body = self.text_of(toks)
+        scr = SmtLibParser(environment=self.env).get_script(StringIO(decl + body))
+        ndecl = decl.count("\n")
+        out = self.SmtLibScript()
+        for c in scr.commands[ndecl:]:
+            out.add_command(c)
+        return out
+
     def formula_ids(self, f, expect_len=None):
         """Arguments of the reported conjunction, as ids.  And([]) = TRUE, And([x]) = x."""
         if f.is_true():
@@ -218,9 +292,12 @@ class PySide(object):
         key = (type(g), g.term(), g.signed)
         return "o%s" % self._goal_key.get(key, "?")
 
-    def last_formula(self, toks):
+    def last_formula(self, toks, text=False):
         try:
-            f, goals = self.script(toks).get_last_formula(mgr=self.mgr, return_optimizations=True)
+            scr = self.parsed_script(toks) if text else self.script(toks)
+            if text and len(scr.commands) != len(toks):
+                return "err parsed %d commands out of %d" % (len(scr.commands), len(toks))
+            f, goals = scr.get_last_formula(mgr=self.mgr, return_optimizations=True)
         except IndexError:
             return "err index-error"
         except Exception as e:              # any other exception class is an outcome of its own
@@ -231,10 +308,10 @@ class PySide(object):
             return "ok ?%s | %s" % (f.serialize(), goals_str([self.goal_str(g) for g in goals]))
         return "ok %s | %s" % (ids(l), goals_str([self.goal_str(g) for g in goals]))
 
-    def strict_formula(self, toks):
+    def strict_formula(self, toks, text=False):
         from pysmt.exceptions import PysmtValueError
         try:
-            f = self.script(toks).get_strict_formula(mgr=self.mgr)
+            f = (self.parsed_script(toks) if text else self.script(toks)).get_strict_formula(mgr=self.mgr)
         except PysmtValueError:
             return "err value-error"
         except Exception as e:
@@ -264,6 +341,7 @@ class PySide(object):
         dAdd, dPush, dPop, dReset, dSolve, dRead, tracking, native, pushsup, apush, aguard = (ch == "1" for ch in cfg)
         mgr = self.mgr
         fid = self.fid
+        fidof = self.fidof
 
         class Options(SolverOptions):
             def __call__(self, solver):
@@ -319,13 +397,13 @@ class PySide(object):
             if native:
                 seen = [x for lv in self.nat for x in lv]
             else:
-                seen = [fid[x] for x in self._assertion_stack]
+                seen = [fidof(x) for x in self._assertion_stack]
             self.log.append(seen + [fid[x] for x in (assumptions or [])])
             if self.fail_solve:
                 self.fail_solve = False
                 raise SolverReturnedUnknownResultError()
             # the verdict: the formulas are literals (id ^ 1 = the negation) or disjunctions (ids >= 1000, ignored)
-            lits = set(x for x in self.log[-1] if x < 1000)
+            lits = set(x for x in self.log[-1] if isinstance(x, int) and (x < 1000 or x >= 10000))
             return not any((x ^ 1) in lits for x in lits)
 
         if tracking:
@@ -411,15 +489,18 @@ class PySide(object):
         cache[cfg] = Route
         return Route
 
-    def route(self, cfg, toks):
+    def route(self, cfg, toks, text=False):
         """Execute the script through the interpreter that `SmtLibScript.evaluate` uses, command by command.
         Returns per command: (snapshot or 'err …', ids of the raw assertion list, returned value rendered)."""
         from pysmt.smtlib.script import InterpreterOMT
         s = self.route_class(cfg)(self.env)
         inter = InterpreterOMT()
         steps = []
+        parsed = self.parsed_script(toks).commands if text else None
         for i, t in enumerate(toks):
             cmd = self.getobj if t == "G" else (self.route_others[i % 2] if t == "x" else self.command(t))
+            if parsed is not None:
+                cmd = parsed[i]
             try:
                 r = inter.evaluate(cmd, s)
             except Exception as e:
@@ -431,7 +512,7 @@ class PySide(object):
                 rv = ",".join("%s=%s" % (self.termid.get(tm, "?"), v.constant_value()) for (tm, v) in r)
             else:
                 rv = None
-            steps.append((self.snapshot(s, True), [self.fid[x] for x in s._assertion_stack], rv))
+            steps.append((self.snapshot(s, True), [self.fidof(x) for x in s._assertion_stack], rv))
         return steps, s
 
     def route_whole(self, cfg, toks):
@@ -446,14 +527,23 @@ class PySide(object):
             return self.error_outcome(e), None
         return self.snapshot(s, True), [("sat" if r is True else "unsat") for (n, r) in log if n == self.smtcmd.CHECK_SAT and isinstance(r, bool)]
 
+    def fidof(self, x):
+        """id of an element of an assertion list; anything that is not one of the harness' formulas is shown as it is
+        (never an exception: a foreign element IS the finding)"""
+        try:
+            return self.fid[x]
+        except (KeyError, TypeError):
+            return "?%s" % (str(x)[:20],)
+
     def snapshot(self, s, tracking):
         nat = "|".join(ids(lv) for lv in reversed(s.nat))
         if tracking:
-            tr = ids([self.fid[x] for x in s._assertion_stack])
+            tr = ids([self.fidof(x) for x in s._assertion_stack])
             bp = s._backtrack_points
             # never print an unbounded list (state leaking between instances would make it grow for ever)
             # (a history of <= 60 calls cannot legitimately create more than 180 points)
-            pts = ids(list(reversed(bp[-400:]))) + ("..(%d)" % len(bp) if len(bp) > 400 else "")
+            pts = ids([x if isinstance(x, int) else "?%s" % (str(x)[:20],) for x in reversed(bp[-POINTS_SHOWN:])]) + \
+                ("..(%d)" % len(bp) if len(bp) > POINTS_SHOWN else "")
         else:
             tr = pts = "-"
         return "%s/%s/%s/%d/%s" % (nat, tr, pts, 1 if s.pending_pop else 0, ids(s.log[-1]) if s.log else "-")
@@ -463,7 +553,7 @@ class PySide(object):
         final = {}
         try:
             if tracking:
-                final["read"] = [self.fid[x] for x in solver.assertions]
+                final["read"] = [self.fidof(x) for x in solver.assertions]
             solver.solve()
             final["check"] = list(solver.log[-1])
         except Exception as e:
@@ -486,7 +576,7 @@ class PySide(object):
         elif k == "s":
             s.solve()
         elif k == "g":
-            val = [self.fid[x] for x in s.assertions]
+            val = [self.fidof(x) for x in s.assertions]
         elif k == "e":
             s.exit()
         elif k in "qxy":
@@ -597,6 +687,9 @@ class PySide(object):
 
 class NativeError(Exception):
     pass
+
+
+POINTS_SHOWN = 400           # raised by the large families
 
 
 CFG_CLASSES = {}             # placement bits -> "+".join(classes of the tree that have it); filled by run()/replay()
@@ -917,7 +1010,7 @@ class Batch(object):
         self.lines, self.pending = [], []
 
 
-def check_scripts(cases, res, use_lean=True, batch=None):
+def check_scripts(cases, res, use_lean=True, batch=None, text=False, model_script=True):
     """cases: list of (toks, legal).  K: model vs get_last_formula / get_strict_formula.  S: vs Oracle."""
     own = batch is None
     if own:
@@ -929,7 +1022,7 @@ def check_scripts(cases, res, use_lean=True, batch=None):
         if n % 512 == 0:
             check_bundle_time()
         try:
-            a1, a2 = guarded(lambda: (P.last_formula(toks), P.strict_formula(toks)))
+            a1, a2 = guarded(lambda: (P.last_formula(toks, text), P.strict_formula(toks, text)))
         except CaseTimeout:
             a1 = a2 = "err hang"
             impl.append((a1, a2))
@@ -937,23 +1030,29 @@ def check_scripts(cases, res, use_lean=True, batch=None):
             try:
                 note_hang()
             except TooManyHangs:
-                batch.add(lines, lambda model, c=cases[:len(impl)], i=impl: _compare_scripts(c, i, model, res))
+                batch.add(lines, lambda model, c=cases[:len(impl)], i=impl: _compare_scripts(c, i, model, res, text))
                 raise
             continue
         impl.append((a1, a2))
-        lines.append(("script " + body).rstrip())
-        lines.append(("strict " + body).rstrip())
+        # model_script=False (very large scripts): the Lean MODEL of the replay loop is interpreted and far too slow
+        # there (function-update chains); the Lean SPEC still answers, and S compares with it
+        lines.append(("script " + body).rstrip() if model_script else "skip")
+        lines.append(("strict " + body).rstrip() if model_script else "skip")
         lines.append(("spec " + body).rstrip())
-    batch.add(lines, lambda model: _compare_scripts(cases, impl, model, res))
+    batch.add(lines, lambda model: _compare_scripts(cases, impl, model, res, text))
     if own:
         batch.flush(use_lean)
 
 
-def _compare_scripts(cases, impl, model, res):
+def _compare_scripts(cases, impl, model, res, text=False):
     P = py()
+    via = " (script written as SMT-LIB text and read back by SmtLibParser)" if text else ""
+    tx = {"text": True} if text else {}
     for n, (toks, legal) in enumerate(cases):
         a1, a2 = impl[n]
         body = " ".join(toks)
+        if text:
+            res.count("script_text")
         o = Oracle()
         for t in toks:
             if not o.legal(t):
@@ -973,12 +1072,12 @@ def _compare_scripts(cases, impl, model, res):
             m1, m2, m3 = model[3 * n], model[3 * n + 1], model[3 * n + 2]
             if m3 != spec_line:
                 res.l.append(("python oracle and Lean Spec disagree", "%s: %s vs %s" % (body, spec_line, m3)))
-            if m1 != a1:
-                res.k.append(("get_last_formula: model %s, implementation %s" % (m1, a1),
-                              {"kind": "script", "cmds": body, "model": m1, "implementation": a1}))
-            if m2 != a2:
-                res.k.append(("get_strict_formula: model %s, implementation %s" % (m2, a2),
-                              {"kind": "strict", "cmds": body, "model": m2, "implementation": a2}))
+            if m1 != a1 and m1 != "bad-op":
+                res.k.append(("get_last_formula%s: model %s, implementation %s" % (via, m1, a1),
+                              dict({"kind": "script", "cmds": body, "model": m1, "implementation": a1}, **tx)))
+            if m2 != a2 and m2 != "bad-op":
+                res.k.append(("get_strict_formula%s: model %s, implementation %s" % (via, m2, a2),
+                              dict({"kind": "strict", "cmds": body, "model": m2, "implementation": a2}, **tx)))
         # S
         if legal:
             if a1 != spec_line:
@@ -988,9 +1087,14 @@ def _compare_scripts(cases, impl, model, res):
                     shape = "assertions"
                 else:
                     shape = "goals"
-                res.s.append(({"oracle": "assert-stack", "part": "script", "shape": shape, "after": last_stack_cmd(toks)},
-                              "get_last_formula reports %s, the live assertions/goals are %s" % (a1, spec_line),
-                              {"kind": "script", "cmds": body, "implementation": a1, "spec": spec_line}))
+                if len(a1) > 400:
+                    a1s, sps = first_difference(a1, spec_line)
+                else:
+                    a1s, sps = a1, spec_line
+                res.s.append(({"oracle": "assert-stack", "part": "script" + ("-text" if text else ""), "shape": shape,
+                               "after": last_stack_cmd(toks)},
+                              "get_last_formula%s reports %s, the live assertions/goals are %s" % (via, a1s, sps),
+                              dict({"kind": "script", "cmds": body, "implementation": a1s, "spec": sps}, **tx)))
             if a2.startswith("ok") and a2 != "ok " + ids(o.live()):
                 res.s.append(({"oracle": "assert-stack", "part": "strict", "shape": "assertions", "after": last_stack_cmd(toks)},
                               "get_strict_formula reports %s, the live assertions are %s" % (a2, ids(o.live())),
@@ -1000,6 +1104,13 @@ def _compare_scripts(cases, impl, model, res):
                 res.s.append(({"oracle": "assert-stack", "part": "strict", "shape": "refused", "after": "none"},
                               "get_strict_formula refuses a script without push/pop/reset and with one check-sat: %s" % a2,
                               {"kind": "strict", "cmds": body, "implementation": a2, "spec": ids(o.live())}))
+
+
+def first_difference(a, b):
+    """large answers: show the neighbourhood of the first difference only"""
+    i = next((k for k in range(min(len(a), len(b))) if a[k] != b[k]), min(len(a), len(b)))
+    lo = max(0, i - 60)
+    return "…%s… (%d chars, first difference at %d)" % (a[lo:i + 100], len(a), i), "…%s… (%d chars)" % (b[lo:i + 100], len(b))
 
 
 def op_kind(t):
@@ -1289,7 +1400,7 @@ ROUTE_ALPHA = ["A", "B", "u0", "u1", "u2", "p0", "p1", "p2", "r", "c", "x"]
 ROUTE_OMT_ALPHA = ["A", "u1", "p1", "c", "O", "G"]
 
 
-def check_routes(cfg, who, cases, res, use_lean=True, batch=None):
+def check_routes(cfg, who, cases, res, use_lean=True, batch=None, text=False):
     """The functionality reached through its public glue: scripts executed on a tracking solver by
     `InterpreterOMT.evaluate` command by command and by `SmtLibScript.evaluate(solver)` as a whole.
     K (scripts without optimisation commands): raw solver state after every command vs the Lean model run on
@@ -1307,7 +1418,7 @@ def check_routes(cfg, who, cases, res, use_lean=True, batch=None):
         plain = not any(t[0] in "osG" for t in toks)
 
         def one():
-            steps, solver = P.route(cfg, toks)
+            steps, solver = P.route(cfg, toks, text)
             whole = P.route_whole(cfg, toks)
             prefixes = []
             if legal:
@@ -1323,16 +1434,16 @@ def check_routes(cfg, who, cases, res, use_lean=True, batch=None):
             except TooManyHangs:
                 impl.append((steps, whole, prefixes, plain))
                 lines.append("evaltrack %s %s" % (cfg, " ".join(toks)) if plain else "classes")
-                batch.add(lines, lambda model, c=cases[:len(impl)]: _compare_routes(cfg, who, c, impl, model, res))
+                batch.add(lines, lambda model, c=cases[:len(impl)]: _compare_routes(cfg, who, c, impl, model, res, text))
                 raise
         impl.append((steps, whole, prefixes, plain))
         lines.append(("evaltrack %s %s" % (cfg, " ".join(toks))).rstrip() if plain else "classes")
-    batch.add(lines, lambda model: _compare_routes(cfg, who, cases, impl, model, res))
+    batch.add(lines, lambda model: _compare_routes(cfg, who, cases, impl, model, res, text))
     if own:
         batch.flush(use_lean)
 
 
-def _compare_routes(cfg, who, cases, impl, model, res):
+def _compare_routes(cfg, who, cases, impl, model, res, text=False):
     for n, (toks, legal) in enumerate(cases):
         steps, whole, prefixes, plain = impl[n]
         body = " ".join(toks)
@@ -1340,6 +1451,9 @@ def _compare_routes(cfg, who, cases, impl, model, res):
         res.steps += len(toks)
         res.count("route_%s" % ("plain" if plain else "omt"))
         rep = {"kind": "route", "cfg": cfg, "who": who, "cmds": body}
+        if text:
+            rep["text"] = True
+            res.count("route_text")
         # K: the calls the interpreter made, as seen in the solver's raw state
         calls = [st[0] for st, t in zip(steps, toks) if t[0] in "aupr" or t == "c" or st[0].startswith("err")]
         if plain and model is not None:
@@ -1397,8 +1511,8 @@ def _compare_routes(cfg, who, cases, impl, model, res):
             i, msg = bad
             res.s.append(({"oracle": "assert-stack", "part": "evaluate", "placement": cfg, "call": toks[i][0] if i < len(toks) else "end",
                            "after": last_stack_cmd(toks[:i + 1])},
-                          "script executed on a solver through SmtLibScript.evaluate / InterpreterOMT (placement of %s): command %d `%s`: %s"
-                          % (who, i, toks[i] if i < len(toks) else "end", msg), dict(rep, step=i)))
+                          "script %sexecuted on a solver through SmtLibScript.evaluate / InterpreterOMT (placement of %s): command %d `%s`: %s"
+                          % ("(written as text, read by SmtLibParser) " if text else "", who, i, toks[i] if i < len(toks) else "end", msg), dict(rep, step=i)))
 
 
 def objective_terms(toks):
@@ -1430,6 +1544,103 @@ def random_route(rng, n, omt):
             toks.append("G")
         else:
             toks.append("x")
+    return toks, True
+
+
+
+# --------------------------------------------------------------------------------------------- text and size
+def textable(toks):
+    """the same script restricted to what the harness' text printer writes: maximize/minimize only, ids without blanks"""
+    out = []
+    for t in toks:
+        if t[0] == "o":
+            g = int(t[1:])
+            t = "o%d" % (g - g % 4 + g % 2)
+        elif t[0] == "s" and len(t) > 1 and t.startswith("s2."):
+            t = "s3." + t[3:]
+        out.append(t)
+    return out
+
+
+def large_script(rng, n, family):
+    """Extreme but legal sizes (the specification does not care about size; CPython and the bookkeeping might).
+    Formulas ids >= 10000 (symbols w<k>), soft ids and objective terms in the hundreds/thousands."""
+    toks = []
+    f = lambda k: 10000 + 2 * k + rng.randrange(2)
+    if family == "goals":
+        # n MaxSMT goals with distinct ids (a new id must get its goal also beyond 256 goals), objectives in between,
+        # then more inside levels that are popped, and soft clauses added to old ids afterwards
+        for i in range(n):
+            toks.append("s%d.%d.%d" % (3 + i, f(i), 1 + i % 5))
+            if i % 37 == 0:
+                toks.append("o%d" % (8 * (i // 37)))
+        toks.append("u2")
+        for i in range(n, n + 30):
+            toks.append("s%d.%d.2" % (3 + i, f(i)))
+        toks.append("s%d.%d.4" % (3 + rng.randrange(n), f(n + 40)))
+        toks.append("p1")
+        for i in range(5):
+            toks.append("s%d.%d.3" % (3 + rng.randrange(n), f(n + 50 + i)))
+        toks.append("s%d.%d.3" % (3 + n + 100, f(n + 60)))
+        toks.append("p1")
+        toks.append("s%d.%d.3" % (3 + n + 101, f(n + 61)))
+    elif family == "levels":
+        # n levels opened one by one and in bulk, assertions at every level, closed in irregular chunks
+        lev = 0
+        for i in range(n):
+            toks.append("a%d" % f(i))
+            if i % 3 == 0:
+                toks.append("s%d.%d.1" % (rng.randrange(4), f(i)))
+            k = 1 if i % 11 else 7
+            toks.append("u%d" % k)
+            lev += k
+        while lev > 0:
+            k = min(lev, rng.choice([1, 2, 3, 5, 60]))
+            toks.append("p%d" % k)
+            lev -= k
+            if rng.random() < 0.3:
+                toks.append("a%d" % f(n + lev))
+                toks.append("u1")
+                lev += 1
+        toks.append("a%d" % f(2 * n + 5))
+    elif family == "asserts":
+        # thousands of assertions, one huge push and pop
+        for i in range(n):
+            toks.append("a%d" % f(i % (n // 2 + 1)))
+            if i == n // 3:
+                toks.append("u%d" % n)
+            if i == 2 * n // 3:
+                toks.append("p%d" % (n - 1))
+        toks.append("c")
+    elif family == "objectives":
+        for i in range(n):
+            toks.append("o%d" % (8 * i + rng.randrange(8)))
+            if i % 50 == 49:
+                toks.append("u1")
+        toks.append("p%d" % (n // 50))
+        toks.append("o%d" % (8 * (n + 1)))
+    return toks, True
+
+
+def large_ops(rng, n):
+    """a solver driven to n levels, with one-shot queries at depth"""
+    toks, lev = [], 0
+    for i in range(n):
+        toks.append("a%d" % (10000 + 2 * i))
+        k = 1 if i % 13 else 5
+        toks.append("u%d" % k)
+        lev += k
+        if i % 17 == 0:
+            toks.append("q%s%d" % (rng.choice("svu"), 10000 + 2 * (n + i)))
+        if i % 41 == 0:
+            toks.append("g")
+    while lev > 0:
+        k = min(lev, rng.choice([1, 2, 4, 50]))
+        toks.append("p%d" % k)
+        lev -= k
+        if rng.random() < 0.2:
+            toks.append("qs%d" % (10000 + 2 * (3 * n + lev)))
+    toks.append("g")
     return toks, True
 
 
@@ -1481,11 +1692,11 @@ def _shrink_loop(sig, rep, kind, key, toks, t_stop):
         elif kind == "route":
             if not legal_of([t for t in ts if t != "G"], False):
                 return None
-            check_routes(rep["cfg"], rep.get("who", "?"), [(ts, True)], r, use_lean=False)
+            check_routes(rep["cfg"], rep.get("who", "?"), [(ts, True)], r, use_lean=False, text=rep.get("text", False))
         elif kind == "track":
             check_tracks(rep["cfg"], rep.get("who", "?"), [(ts, legal_of(ts, True))], r, True, use_lean=False)
         else:
-            check_scripts([(ts, legal_of(ts, False))], r, use_lean=False)
+            check_scripts([(ts, legal_of(ts, False))], r, use_lean=False, text=rep.get("text", False))
         for (sg, wh, rp) in r.s:
             if all(sg.get(k) == v for k, v in sig.items() if k != "after"):
                 return wh, rp
@@ -1517,6 +1728,10 @@ def weight(task):
         return 2 * (12 if task.get("drop") else 20) ** (task["depth"] - len(task["prefix"]))
     if k == "duo_enum":
         return 4 * 10 ** task["depth"]
+    if k == "script_text_enum":
+        return 12 * 13 ** task["depth"]
+    if k in ("script_large", "track_large"):
+        return 40 * task["n"] * (task["n"] // 20 if k == "track_large" else 8)
     if k == "route_enum":
         return 6 * (6 if task["omt"] else 11) ** task["depth"]
     return 25 * task["n"]
@@ -1541,11 +1756,34 @@ def work(bundle):
             if kind == "route_enum":
                 alpha = ROUTE_OMT_ALPHA if task["omt"] else ROUTE_ALPHA
                 cases = [(list(t), l) for (t, l) in enum_sequences(alpha, task["depth"], [], False)]
-                check_routes(task["cfg"], task["who"], cases, res, batch=batch)
+                check_routes(task["cfg"], task["who"], cases, res, batch=batch, text=task.get("text", False))
             elif kind == "route_random":
                 rng = random.Random(task["seed"])
                 cases = [random_route(rng, rng.randrange(6, 41), task["omt"]) for _ in range(task["n"])]
-                check_routes(task["cfg"], task["who"], cases, res, batch=batch)
+                check_routes(task["cfg"], task["who"], cases, res, batch=batch, text=task.get("text", False))
+            elif kind == "script_text_enum":
+                cases = [(list(t), l) for (t, l) in enum_sequences(SCRIPT_ALPHA, task["depth"], [], False)]
+                check_scripts(cases, res, batch=batch, text=True)
+            elif kind == "script_text_random":
+                rng = random.Random(task["seed"])
+                cases = []
+                for _ in range(task["n"]):
+                    t, l = random_script(rng, rng.randrange(8, 41), rng.random() < 0.05)
+                    cases.append((textable(t), l))
+                check_scripts(cases, res, batch=batch, text=True)
+            elif kind == "script_large":
+                rng = random.Random(task["seed"])
+                cases = [large_script(rng, task["n"], task["family"])]
+                fast = task["family"] in ("asserts", "objectives") or task["n"] <= 40
+                check_scripts(cases, res, batch=batch, model_script=fast)
+                if task.get("text"):
+                    check_scripts([(textable(t), l) for t, l in cases], res, batch=batch, text=True, model_script=fast)
+                res.count("large_%s_%d" % (task["family"], task["n"]))
+            elif kind == "track_large":
+                global POINTS_SHOWN
+                POINTS_SHOWN = max(POINTS_SHOWN, 3 * task["n"])
+                rng = random.Random(task["seed"])
+                check_tracks(task["cfg"], task["who"], [large_ops(rng, task["n"])], res, True, batch=batch)
             elif kind == "duo_enum":
                 cases = list(enum_duos(task["depth"], task["cfg"][6] == "1"))
                 check_duos((task["cfg"], task["cfg"]), task["who"], cases, res, batch=batch)
@@ -2000,6 +2238,20 @@ def plan(ctx, placements):
             for other in cfgs_real:
                 tasks.append({"kind": "duo_random", "cfgs": [cfg, other], "who": w + "|" + "+".join(by_cfg[other]),
                               "seed": sd + 300 + j, "n": 150 if quick else 1500})
+    # the text route: the same scripts written as SMT-LIB text and read back by SmtLibParser ((push 0), (pop), …)
+    tasks.append({"kind": "script_text_enum", "depth": 3 if quick else 4})
+    tasks.append({"kind": "script_text_random", "seed": sd + 600, "n": 300 if quick else 4000})
+    # extreme but legal sizes
+    big = 300 if quick else 2000
+    for j, fam in enumerate(["goals", "levels", "asserts", "objectives"]):
+        tasks.append({"kind": "script_large", "family": fam, "n": big if fam != "asserts" else 5 * big, "seed": sd + 700 + j,
+                      "text": quick or fam != "asserts"})
+    for j, fam in enumerate(["goals", "levels"]):
+        for k in range(2 if quick else 6):
+            tasks.append({"kind": "script_large", "family": fam, "n": 25 + 5 * k, "seed": sd + 750 + 10 * j + k, "text": True})
+    for cfg, who in sorted(by_cfg.items()):
+        if "Z3Solver" in who or "Portfolio" in who or "BddSolver" in who:
+            tasks.append({"kind": "track_large", "cfg": cfg, "who": "+".join(who), "n": 300 if quick else 600, "seed": sd + 800})
     # the glue route: scripts executed on a tracking solver through SmtLibScript.evaluate / InterpreterOMT
     for cfg, who in sorted(by_cfg.items()):
         if cfg[6] != "1" or cfg[7] != "1":
@@ -2010,6 +2262,9 @@ def plan(ctx, placements):
             tasks.append({"kind": "route_enum", "cfg": cfg, "who": w, "depth": 4 if quick else 6, "omt": True})
         tasks.append({"kind": "route_random", "cfg": cfg, "who": w, "seed": sd + 500, "n": 200 if quick else 2000, "omt": False})
         tasks.append({"kind": "route_random", "cfg": cfg, "who": w, "seed": sd + 501, "n": 150 if quick else 1500, "omt": True})
+        if "Z3Solver" in who:
+            tasks.append({"kind": "route_enum", "cfg": cfg, "who": w, "depth": 3 if quick else 4, "omt": False, "text": True})
+            tasks.append({"kind": "route_random", "cfg": cfg, "who": w, "seed": sd + 502, "n": 100 if quick else 1000, "omt": True, "text": True})
     # ... and deliberately different placements (K only: the model must follow the code there too)
     others = [o + sfx for o, sfx in zip(
         ["111110110", "111111011", "000000011", "000000111", "110111111", "111011111", "101111111",
@@ -2152,7 +2407,7 @@ def replay(ctx, rep):
                 legal = False
                 break
             o.step(t)
-        check_scripts([(toks, legal)], res)
+        check_scripts([(toks, legal)], res, text=r.get("text", False))
     elif kind == "track":
         toks = r["ops"].split()
         o = Oracle()
@@ -2166,7 +2421,8 @@ def replay(ctx, rep):
         check_tracks(r["cfg"], r.get("who", "replay"), [(toks, legal)], res, True)
     elif kind == "route":
         toks = r["cmds"].split()
-        check_routes(r["cfg"], r.get("who", "replay"), [(toks, legal_of([t for t in toks if t != "G"], False))], res)
+        check_routes(r["cfg"], r.get("who", "replay"), [(toks, legal_of([t for t in toks if t != "G"], False))], res,
+                     text=r.get("text", False))
     elif kind == "duo":
         check_duos(tuple(r["cfgs"]), r.get("who", "replay"), [parse_duo(r["history"])], res)
     elif kind == "placement":
